@@ -1,8 +1,8 @@
 import KvarnModel.Props.C09
 /-!
 C09 — the other direction of `parseRange_render`: the header reader accepts *only* the grammar. Whatever byte string
-`parseRange` reads as a range is literally `bytes=` ++ first ++ `-` ++ last with both numbers read by `u64::from_str`
-(an optional `+`, then one or more digits, value below 2^64) and no second unit, no second separator in `first`.
+`parseRange` reads as a range is literally `bytes=` ++ first ++ `-` ++ last with both positions one or more digits and nothing
+else (`parsePos_shape`; value below 2^64) and no second unit, no second separator in `first`.
 So "anything else" — other units, a repeated unit, several ranges, suffix and open ranges, stray bytes — is `none`,
 and by `otherwise_full_200` the full 200 response.
 -/
@@ -58,7 +58,7 @@ theorem position_prefix (p r : Bytes) (x : UInt8) (hp : ∀ y ∈ p, y ≠ x) :
 /-- **only the grammar is a range**: a header value read as `(a, b)` is `bytes=` first `-` last, literally -/
 theorem parseRange_only_grammar (v : Bytes) (a b : Nat) (h : parseRange v = some (a, b)) :
     ∃ sa sb, v = BYTES_EQ ++ sa ++ [DASH] ++ sb ∧ (∀ y ∈ sa, y ≠ DASH) ∧
-      parseU64 sa = some a ∧ parseU64 sb = some b := by
+      parsePos sa = some a ∧ parsePos sb = some b := by
   unfold parseRange at h
   split at h; · cases h
   split at h; · cases h
@@ -117,7 +117,7 @@ theorem parseDigits_digits (s : Bytes) (acc n : Nat) (h : parseDigits s acc = so
     · cases h
 
 theorem parseU64_shape (s : Bytes) (n : Nat) (h : parseU64 s = some n) :
-    stripPlus s ≠ [] ∧ (∀ x ∈ stripPlus s, isDigit x = true) ∧ n ≤ U64_MAX := by
+    stripPlus s ≠ [] ∧ (∀ x ∈ stripPlus s, isDigit x = true) ∧ n ≤ U64_MAX ∧ parseDigits (stripPlus s) 0 = some n := by
   simp only [parseU64, parseUnsigned] at h
   split at h; · cases h
   rename_i hne
@@ -125,9 +125,27 @@ theorem parseU64_shape (s : Bytes) (n : Nat) (h : parseU64 s = some n) :
   obtain ⟨m, hm, h⟩ := h
   split at h
   · simp only [Option.some.injEq] at h; subst h
-    refine ⟨?_, parseDigits_digits _ _ _ hm, by assumption⟩
+    refine ⟨?_, parseDigits_digits _ _ _ hm, by assumption, hm⟩
     intro e; rw [e] at hne; simp at hne
   · cases h
+
+/-- **a position is one or more digits, nothing else** (no sign, no space, no letters), and its value is what the
+digits say, below 2^64 -/
+theorem parsePos_shape (s : Bytes) (n : Nat) (h : parsePos s = some n) :
+    s ≠ [] ∧ (∀ x ∈ s, isDigit x = true) ∧ n ≤ U64_MAX ∧ parseDigits s 0 = some n := by
+  obtain ⟨hplus, hu⟩ := parsePos_some h
+  have hs : stripPlus s = s := by
+    cases s with
+    | nil => rfl
+    | cons c cs =>
+      have : c ≠ 43 := by intro e; subst e; simp at hplus
+      unfold stripPlus
+      split
+      · rename_i r heq; simp only [List.cons.injEq] at heq; exact absurd heq.1 this
+      · rfl
+  have := parseU64_shape s n hu
+  rw [hs] at this
+  exact this
 
 /-- a repeated unit is not a range (the input of the fourth-round seeded change), for any numbers -/
 theorem repeated_unit_is_full (body : Bytes) (rest : Bytes) :
@@ -142,14 +160,14 @@ theorem repeated_unit_is_full (body : Bytes) (rest : Bytes) :
       have hv' : BYTES_EQ ++ rest = sa ++ ([DASH] ++ sb) := by
         have := hv; simp only [List.append_assoc] at this
         exact List.append_cancel_left this
-      obtain ⟨_, hd, _⟩ := parseU64_shape sa a ha
+      obtain ⟨_, hd, _⟩ := parsePos_shape sa a ha
       cases sa with
       | nil => simp [BYTES_EQ, DASH] at hv'
       | cons c cs =>
         have hc : c = 98 := by
           have := congrArg List.head? hv'; simpa [BYTES_EQ] using this.symm
         subst hc
-        have := hd 98 (by simp [stripPlus])
+        have := hd 98 (by simp)
         simp [isDigit] at this
   have e1 : (some (BYTES_EQ ++ BYTES_EQ ++ rest)).bind parseRange = none := by simpa using this
   have e2 : (none : Option Bytes).bind parseRange = none := rfl
